@@ -28,6 +28,14 @@
    - a panic is recovered by the caller of the API method (deferred unlocks run, the goroutine
      goes on with its next call), as the stress harness does.
 
+   - Rename (C04 repair of the directory mutexes) is the one method that holds several FileData
+     mutexes at a time: the two parents across the move, inside them the directory whose children
+     are re-keyed, inside that the child whose name changes - always with mu write-locked.  A thread
+     therefore holds a STACK of file mutexes [th_f]; Rename's acquisitions are compiled as written
+     (cc_rename_code: nested, skipping what is already held, as registerWithParent /
+     unRegisterWithParent do through holdsDir), its effect on the tree stays one action that runs
+     after them.
+
    No proofs here (Proofs/ConcProof.v). *)
 From Coq Require Import String.
 From AF Require Import Lib.Bytes Lib.Path Lib.Ops Gen.Consts Model.MemFile Model.MemFs.
@@ -70,7 +78,7 @@ Inductive cc_aid :=
 
 Inductive cc_instr :=
 | CcAcq (l : cc_lk) (r : nat)     (* r: the FileData whose mutex is taken (LkF only) *)
-| CcRel (l : cc_lk)               (* LkF: the one file mutex this thread holds *)
+| CcRel (l : cc_lk)               (* LkF: the file mutex this thread took last *)
 | CcDefer (l : cc_lk)             (* defer <unlock> *)
 | CcAct (a : cc_aid).
 
@@ -124,6 +132,43 @@ Definition cc_touch1 (s : mst) (p : str) : list nat := cc_node_at s p ++ cc_node
 Definition cc_touch_rename (s : mst) (p q : str) : list nat :=
   cc_touch1 s p ++ cc_node_at s (cc_parent_path q) ++ find_descendants s p.
 Definition cc_touches (l : list nat) : list cc_instr := flat_map (fun r => [CcAcq LkF r; CcRel LkF]) l.
+
+(* ---- Rename: nested holds ---- *)
+Definition cc_heldb (r : nat) (held : list nat) : bool := existsb (Nat.eqb r) held.
+(* transient locks of mutexes that are not held already *)
+Definition cc_touches_h (held l : list nat) : list cc_instr :=
+  flat_map (fun r => if cc_heldb r held then [] else [CcAcq LkF r; CcRel LkF]) l.
+(* hold the mutexes [hs] (those not yet held), one inside the other, around [inner] *)
+Fixpoint cc_holding (held hs : list nat) (inner : list nat -> list cc_instr) : list cc_instr :=
+  match hs with
+  | [] => inner held
+  | r :: rest => if cc_heldb r held then cc_holding held rest inner
+                 else CcAcq LkF r :: cc_holding (r :: held) rest inner ++ [CcRel LkF]
+  end.
+Definition cc_opt_nat_eqb (a : option nat) (b : nat) : bool := match a with Some x => Nat.eqb x b | None => false end.
+
+(* the lock operations of Rename(p, q) (normalised names) between taking mu and its effect:
+   renameParents: the old and the new parent, unless the entry is renamed into its own subtree
+   (then nothing is held across, as before) and never the entry itself; under them: f.Name() /
+   ChangeFileName(f), the Name() calls of findDescendants' sort, then per directory of the
+   subtree ONE hold (renameSiblings) around the transient locks of its children
+   (Name, ChangeFileName), last registerWithParent(f), which locks the new parent unless held *)
+Definition cc_rename_code (s : mst) (p q : str) : list cc_instr :=
+  match lookup s p with
+  | None => []
+  | Some f =>
+    let descs := find_descendants s p in
+    let parents := if prefixb (p ++ s_slash) q then []
+                   else filter (fun r => negb (Nat.eqb r f)) (cc_node_at s (cc_parent_path p) ++ cc_node_at s (cc_parent_path q)) in
+    cc_holding [] parents (fun held =>
+      cc_touches_h held (f :: descs) ++
+      flat_map (fun d => match filter (fun x => cc_opt_nat_eqb (find_parent s x) d) descs with
+                         | [] => []
+                         | kids => if prefixb (p ++ s_slash) q then cc_touches_h held (d :: kids)
+                                   else cc_holding held [d] (fun held' => cc_touches_h held' kids)
+                         end) (f :: descs) ++
+      cc_touches_h held (cc_node_at s (cc_parent_path q)))
+  end.
 
 Definition cc_is_mkdirall (o : op) : bool := match o with MkdirAll _ _ => true | _ => false end.
 Definition cc_perm (o : op) : Z :=
@@ -286,7 +331,7 @@ Definition cc_sem (a : cc_aid) (f : cc_frame) (s0 : mst) : cc_out :=
       end
   | ARenameT =>
       let q := match o with Rename _ q => normalize_path q | _ => [] end in
-      CcCont s f (cc_touches (cc_touch_rename s name q) ++ [CcAct ARename])
+      CcCont s f (cc_rename_code s name q ++ [CcAct ARename])
   | ARename =>
       let q := match o with Rename _ q => q | _ => [] end in
       match m_rename s name q with
@@ -348,7 +393,7 @@ Record cc_thread := mkCcT {
   th_fr : cc_frame;
   th_slots : list (option nat);    (* per completed call: the handle it returned *)
   th_results : list res;           (* results of the completed calls, most recent first *)
-  th_mu : cc_hmu; th_f : option nat;   (* what this thread holds *)
+  th_mu : cc_hmu; th_f : list nat;     (* what this thread holds: of mu, and the file mutexes (innermost first) *)
   th_leaked : bool                 (* a panic left a lock behind that no defer releases *)
 }.
 
@@ -450,7 +495,7 @@ Definition th_set_code (th : cc_thread) (code : list cc_instr) : cc_thread :=
 Definition th_set_defers (th : cc_thread) (d : list cc_lk) : cc_thread :=
   mkCcT (th_prog th) (th_active th) (th_code th) d (th_fr th) (th_slots th) (th_results th)
         (th_mu th) (th_f th) (th_leaked th).
-Definition th_set_held (th : cc_thread) (m : cc_hmu) (fo : option nat) : cc_thread :=
+Definition th_set_held (th : cc_thread) (m : cc_hmu) (fo : list nat) : cc_thread :=
   mkCcT (th_prog th) (th_active th) (th_code th) (th_defers th) (th_fr th) (th_slots th) (th_results th)
         m fo (th_leaked th).
 
@@ -478,15 +523,15 @@ Definition cc_release (c : cc_cfg) (t : nat) (th : cc_thread) (l : cc_lk) : cc_c
     end
   | LkF =>
     match th_f th with
-    | Some r =>
+    | r :: rest =>
       match cf_fm c r with
       | Some t' => if Nat.eqb t t'
                    then mkCcC (cf_st c) (cf_mu c) (fm_set (cf_fm c) r None)
-                              (list_set t (th_set_held th (th_mu th) None) (cf_threads c)) (cf_bad c) (cf_panics c) (cf_legacy c)
+                              (list_set t (th_set_held th (th_mu th) rest) (cf_threads c)) (cf_bad c) (cf_panics c) (cf_legacy c)
                    else err
       | None => err
       end
-    | None => err
+    | [] => err
     end
   end.
 
@@ -496,16 +541,17 @@ Definition cc_acquire (c : cc_cfg) (t : nat) (th : cc_thread) (l : cc_lk) (r : n
   | LkR => mkCcC (cf_st c) (match cf_mu c with CcR n => CcR (S n) | _ => CcR 1 end) (cf_fm c)
                  (list_set t (th_set_held th HR (th_f th)) (cf_threads c)) (cf_bad c) (cf_panics c) (cf_legacy c)
   | LkF => mkCcC (cf_st c) (cf_mu c) (fm_set (cf_fm c) r (Some t))
-                 (list_set t (th_set_held th (th_mu th) (Some r)) (cf_threads c)) (cf_bad c) (cf_panics c) (cf_legacy c)
+                 (list_set t (th_set_held th (th_mu th) (r :: th_f th)) (cf_threads c)) (cf_bad c) (cf_panics c) (cf_legacy c)
   end.
 
 (* do the deferred unlocks registered so far release everything that is held? *)
-Fixpoint cc_okd (m : cc_hmu) (f : bool) (d : list cc_lk) : bool :=
+(* f: the number of file mutexes held *)
+Fixpoint cc_okd (m : cc_hmu) (f : nat) (d : list cc_lk) : bool :=
   match d with
-  | [] => cc_hmu_eqb m HNone && negb f
+  | [] => cc_hmu_eqb m HNone && Nat.eqb f 0
   | LkW :: d' => cc_hmu_eqb m HW && cc_okd HNone f d'
   | LkR :: d' => cc_hmu_eqb m HR && cc_okd HNone f d'
-  | LkF :: d' => f && cc_okd m false d'
+  | LkF :: d' => Nat.ltb 0 f && cc_okd m (pred f) d'
   end.
 
 (* one step of thread t; a thread that is not enabled does not move *)
@@ -544,7 +590,7 @@ Definition cc_step (c : cc_cfg) (t : nat) : cc_cfg :=
                 (cf_bad c) (cf_panics c) (cf_legacy c)
         | CcPanic s =>
           (* unwinding: the rest of the call is skipped, deferred calls still run, the caller recovers *)
-          let leak := negb (cc_okd (th_mu th) (match th_f th with Some _ => true | None => false end) (th_defers th)) in
+          let leak := negb (cc_okd (th_mu th) (length (th_f th)) (th_defers th)) in
           mkCcC s (cf_mu c) (cf_fm c)
                 (list_set t (mkCcT (th_prog th) true [] (th_defers th) (fr_set_res (th_fr th) RPanic) (th_slots th)
                                    (th_results th) (th_mu th) (th_f th) (th_leaked th || leak)) (cf_threads c))
@@ -555,7 +601,7 @@ Definition cc_step (c : cc_cfg) (t : nat) : cc_cfg :=
   end.
 
 Definition cc_mk_thread (slots : list (option nat)) (p : list op) : cc_thread :=
-  mkCcT p false [] [] (fr0 (HSync 0%nat)) slots [] HNone None false.
+  mkCcT p false [] [] (fr0 (HSync 0%nat)) slots [] HNone [] false.
 
 Definition cc_init_gen (legacy : bool) (s : mst) (progs : list (list (option nat) * list op)) : cc_cfg :=
   mkCcC s CcFree (fun _ => None) (map (fun sp => cc_mk_thread (fst sp) (snd sp)) progs) None 0%nat legacy.
@@ -888,18 +934,19 @@ Definition cc_locktab : list (string * string) := [
   ("MemMapFs.OpenFile", "if{ mu.Lock defer:mu.Unlock call:lockfreeOpenOrCreate } else{ mu.RLock defer:mu.RUnlock } if{ ret } if{ call:Seek if{ call:Close ret } } if{ call:Truncate if{ call:Close ret } } ret");
   ("MemMapFs.Remove", "mu.Lock defer:mu.Unlock if{ call:unRegisterWithParent if{ ret } } else{ ret } ret");
   ("MemMapFs.RemoveAll", "mu.Lock defer:mu.Unlock call:unRegisterWithParent ret");
-  ("MemMapFs.Rename", "mu.Lock defer:mu.Unlock if{ if{ ret } call:lockfreeBelowFile if{ ret } call:unRegisterWithParent if{ ret } call:ChangeFileName call:renameDescendants if{ ret } call:registerWithParent } else{ ret } ret");
+  ("MemMapFs.Rename", "mu.Lock defer:mu.Unlock if{ if{ ret } call:lockfreeBelowFile if{ ret } if{ pOld.Lock defer:pOld.Unlock } if{ pNew.Lock defer:pNew.Unlock } call:unRegisterWithParent if{ ret } call:ChangeFileName call:renameDescendants if{ ret } call:registerWithParent } else{ ret } ret");
   ("MemMapFs.Stat", "call:Open if{ ret } ret");
-  ("MemMapFs.findDescendants", "func{ call:Name call:Name ret } ret");
+  ("MemMapFs.findDescendants", "func{ call:Name call:Name if{ ret } ret } ret");
   ("MemMapFs.findParent", "call:Name if{ ret } ret");
   ("MemMapFs.lockfreeBelowFile", "for{ if{ call:IsDir ret } if{ ret } }");
   ("MemMapFs.lockfreeMkdir", "if{ call:IsDir if{ ret } } else{ call:SetMode call:registerWithParent } ret");
   ("MemMapFs.lockfreeOpenOrCreate", "if{ if{ ret } ret } call:lockfreeBelowFile if{ ret } call:SetMode call:registerWithParent ret");
   ("MemMapFs.open", "mu.RLock mu.RUnlock if{ ret } ret");
-  ("MemMapFs.registerWithParent", "if{ ret } call:findParent if{ call:Name call:lockfreeMkdir if{ ret } if{ ret } } parent.Lock defer:parent.Unlock");
-  ("MemMapFs.renameDescendants", "call:findDescendants for{ call:Name call:Name call:unRegisterWithParent if{ ret } call:Name call:ChangeFileName call:registerWithParent } ret");
+  ("MemMapFs.registerWithParent", "if{ ret } call:findParent if{ call:Name call:lockfreeMkdir if{ ret } if{ ret } } if{ parent.Lock defer:parent.Unlock }");
+  ("MemMapFs.renameDescendants", "call:findDescendants for{ call:Name for{ call:Name } call:renameSiblings if{ ret } } ret");
+  ("MemMapFs.renameSiblings", "call:findParent if{ dir.Lock defer:dir.Unlock } for{ call:Name call:Name call:unRegisterWithParent if{ ret } call:Name call:ChangeFileName call:registerWithParent } ret");
   ("MemMapFs.setFileMode", "mu.Lock defer:mu.Unlock if{ ret } call:SetMode ret");
-  ("MemMapFs.unRegisterWithParent", "if{ ret } call:findParent if{ call:Name panic } parent.Lock defer:parent.Unlock ret");
+  ("MemMapFs.unRegisterWithParent", "if{ ret } call:findParent if{ call:Name panic } if{ parent.Lock defer:parent.Unlock } ret");
   ("mem.ChangeFileName", "f.Lock f.Unlock");
   ("mem.File.Close", "f.fileData.Lock if{ f.fileData.Unlock ret } f.fileData.Unlock ret");
   ("mem.File.Name", "call:Name ret");
